@@ -358,27 +358,42 @@ func extractCell(c *report.Ctx, s fsmSpec, m *fsmModel, f *ssa.Function) string 
 			kinds["?"] = true
 			continue
 		}
-		v := e.Vals[0]
-		switch {
-		case an.IsNil(v):
-			kinds["nil"] = true
-			if must, _ := ord.Before(e.Ret); must&allMask != allMask {
-				nilAfterAll = false
-			}
-		case an.GlobalOf(v) != "":
-			kinds[strings.TrimPrefix(an.GlobalOf(v), coreP+".")] = true
-		default:
-			if call, _ := an.CallOf(an.Strip(v, false)); call != nil {
-				cal := an.Callee(call)
-				if strings.Contains(cal, "FlowSynchronization.") {
-					kinds["flowerr"] = true
-				} else if cal == coreP+".ValidateInternalAgentEvent" || cal == coreP+".ValidateExternalAgentEvent" {
-					kinds["subscribeerr"] = true
-				} else {
-					kinds["result of "+cal] = true
+		// a return shared by several failing branches returns a join of their errors: each is classified
+		// (a join that may also be nil stays what it is)
+		vals := []ssa.Value{e.Vals[0]}
+		if leaves := an.PhiLeaves(e.Vals[0]); len(leaves) > 1 {
+			anyNil := false
+			for _, l := range leaves {
+				if an.IsNil(l) {
+					anyNil = true
 				}
-			} else {
-				kinds["other:"+an.Path(v)] = true
+			}
+			if !anyNil {
+				vals = leaves
+			}
+		}
+		for _, v := range vals {
+			switch {
+			case an.IsNil(v):
+				kinds["nil"] = true
+				if must, _ := ord.Before(e.Ret); must&allMask != allMask {
+					nilAfterAll = false
+				}
+			case an.GlobalOf(v) != "":
+				kinds[strings.TrimPrefix(an.GlobalOf(v), coreP+".")] = true
+			default:
+				if call, _ := an.CallOf(an.Strip(v, false)); call != nil {
+					cal := an.Callee(call)
+					if strings.Contains(cal, "FlowSynchronization.") {
+						kinds["flowerr"] = true
+					} else if cal == coreP+".ValidateInternalAgentEvent" || cal == coreP+".ValidateExternalAgentEvent" {
+						kinds["subscribeerr"] = true
+					} else {
+						kinds["result of "+cal] = true
+					}
+				} else {
+					kinds["other:"+an.Path(v)] = true
+				}
 			}
 		}
 	}
